@@ -162,6 +162,142 @@ pub fn random_case_with(cfg: GenCfg, nctx: usize, ch: &mut Choices<'_>, st: &mut
     Ok(())
 }
 
+
+/// Rule-set idioms: chains in which one field is tested again and again (`n != 1 and n != 2 and n != 3`,
+/// `ip == a or ip == b or ...`, `n >= 1 and n <= 5`), negated members, negated groups, two groups joined by another
+/// operator.  These are the shapes a compile-time rewrite of logical chains (merging tests into a set lookup or a
+/// range, folding negations, dropping repeated operands) would look for; every field may be absent, both
+/// nil-not-equal settings, mandatory and optional fields.
+fn ruleset_case(ch: &mut Choices<'_>, st: &mut Stats) -> CaseResult {
+    let nil_ne = ch.draw(2) == 0;
+    let nfields = ch.range(1, 3);
+    let mut fields = Vec::new();
+    let mut lits: Vec<Vec<MLit>> = Vec::new();
+    for i in 0..nfields {
+        let t = ch.draw(3);
+        let optional = ch.draw(3) != 0;
+        fields.push(FieldSpec { name: format!("f{i}"), ty: [MType::Int, MType::Bytes, MType::Ip][t].clone(), optional });
+        let start = ch.draw(pool_len(t));
+        let n = ch.range(2, 5);
+        let mut l = Vec::new();
+        for k in 0..n {
+            let ri = if ch.chance(1, 5) { ch.draw(pool_len(t)) } else { (start + k) % pool_len(t) };
+            let v = pool_val(t, ri).unwrap();
+            l.push(match v {
+                MVal::Int(v) => MLit::Int(IntLit { v, form: if v >= 0 && ri % 2 == 1 { IntForm::Hex } else { IntForm::Dec } }),
+                MVal::Bytes(v) => MLit::Bytes(BytesLit { v, form: BytesForm::Quoted((ri % 3) as u8) }),
+                MVal::Ip(v) => MLit::Ip(v),
+                _ => unreachable!(),
+            });
+        }
+        lits.push(l);
+    }
+    let mut max_same = 0usize;
+    let mut group = |ch: &mut Choices<'_>| -> MExpr {
+        let lop = *ch.pick(&LOp::ALL);
+        let n = ch.weighted(&[1, 4, 3, 2, 1, 1]) + 2;
+        let dom_f = ch.draw(nfields);
+        let dom_op = *ch.pick(&OrdOp::ALL);
+        let mut same = 0;
+        let mut items = Vec::new();
+        for _ in 0..n {
+            let f = if ch.chance(3, 4) { dom_f } else { ch.draw(nfields) };
+            let o = if ch.chance(3, 4) { dom_op } else { *ch.pick(&OrdOp::ALL) };
+            if f == dom_f && o == dom_op {
+                same += 1;
+            }
+            let lit = ch.pick(&lits[f]).clone();
+            let op = match (&lit, ch.chance(1, 12)) {
+                (MLit::Int(i), true) => MOp::BitAnd(i.clone()),
+                _ => MOp::Ord(o, lit),
+            };
+            let cmp = MExpr::Cmp { lhs: MIndex::field(&fields[f].name), op };
+            items.push(if ch.chance(1, 7) { MExpr::Not(Box::new(cmp)) } else { cmp });
+        }
+        max_same = max_same.max(same);
+        MExpr::Comb { op: lop, items }
+    };
+    fn wrap(op: LOp, it: MExpr) -> MExpr {
+        match &it {
+            MExpr::Comb { op: o, .. } if o.prec() <= op.prec() => MExpr::Paren(Box::new(it)),
+            _ => it,
+        }
+    }
+    let expr = match ch.weighted(&[5, 2, 2, 2]) {
+        0 => group(ch),
+        1 => MExpr::Not(Box::new(MExpr::Paren(Box::new(group(ch))))),
+        2 => {
+            let op2 = *ch.pick(&LOp::ALL);
+            let (a, b) = (group(ch), group(ch));
+            MExpr::Comb { op: op2, items: vec![wrap(op2, a), wrap(op2, b)] }
+        }
+        _ => {
+            let op2 = *ch.pick(&LOp::ALL);
+            let (a, b) = (group(ch), group(ch));
+            let f = ch.draw(nfields);
+            let mid = MExpr::Cmp { lhs: MIndex::field(&fields[f].name), op: MOp::Ord(*ch.pick(&OrdOp::ALL), ch.pick(&lits[f]).clone()) };
+            MExpr::Comb { op: op2, items: vec![wrap(op2, a), mid, MExpr::Not(Box::new(MExpr::Paren(Box::new(b))))] }
+        }
+    };
+    let alias: Vec<u8> = (0..8).map(|_| ch.draw(2) as u8).collect();
+    let space: Vec<u8> = (0..8).map(|_| ch.weighted(&[3, 6, 1, 1, 1, 1]) as u8).collect();
+    let style = Style { alias, space };
+    let recipe = Recipe { fields: fields.clone(), nil_ne, funcs: vec![], concat: false, lists: vec![] };
+    let mut ctxs = Vec::new();
+    for _ in 0..6 {
+        let mut vals = Vec::new();
+        for (i, f) in fields.iter().enumerate() {
+            let t = match f.ty {
+                MType::Int => 0,
+                MType::Bytes => 1,
+                _ => 2,
+            };
+            let how = ch.weighted(&[if f.optional { 3 } else { 0 }, 4, 2]);
+            vals.push(match how {
+                0 => None,
+                1 => Some(ch.pick(&lits[i]).val()),
+                _ => pool_val(t, ch.draw(pool_len(t))),
+            });
+        }
+        ctxs.push(MCtx { vals });
+    }
+    let text = print_expr(&expr, &style);
+    let lists = ListState::new();
+    let case = Case { recipe: &recipe, expr: &expr, text: &text, ctxs: &ctxs, lists: &lists };
+    let scheme = recipe.build();
+    let ast = parse_checked(&scheme, &case)?;
+    json_checked(&ast, &case)?;
+    let filter = compile_checked(ast, &case)?;
+    for (ci, c) in ctxs.iter().enumerate() {
+        let ec = recipe.make_ctx(&scheme, c, &lists);
+        exec_checked(&filter, &ec, &case, ci)?;
+        st.eval();
+        let env = Env::new(&recipe, c, &lists);
+        let mut truths = Vec::new();
+        leaf_truths(&env, &expr, &mut truths);
+        let mixed = truths.iter().any(|b| *b) && truths.iter().any(|b| !*b);
+        let absent = c.vals.iter().any(|v| v.is_none());
+        if max_same >= 3 && (mixed || absent) {
+            st.nontrivial(&(&text, c, nil_ne));
+            st.sample("ruleset", || json!({"filter": text, "context": c.show(&recipe.fields), "nil_ne": nil_ne}));
+        }
+        if absent {
+            st.class("ruleset-ctx-with-absent-field");
+            let mut r2 = recipe.clone();
+            r2.nil_ne = !r2.nil_ne;
+            let env2 = Env::new(&r2, c, &lists);
+            if let (Ok(a), Ok(b)) = (eval::eval_expr(&env, &expr), eval::eval_expr(&env2, &expr)) {
+                if a != b {
+                    st.class("ruleset-nil-ne-setting-decides-result");
+                }
+            }
+        }
+    }
+    st.class(&format!("ruleset-same-field-same-op-{}", max_same.min(6)));
+    st.class(if nil_ne { "ruleset-nil-ne-true" } else { "ruleset-nil-ne-false" });
+    Ok(())
+}
+
 fn random_case(ch: &mut Choices<'_>, st: &mut Stats) -> CaseResult {
     random_case_with(GenCfg::scalar(), 8, ch, st)
 }
@@ -170,13 +306,15 @@ pub fn subs() -> Vec<Sub> {
     vec![
         Sub { name: "optable", f: Box::new(optable_case) },
         Sub { name: "random", f: Box::new(random_case) },
+        Sub { name: "ruleset", f: Box::new(ruleset_case) },
     ]
 }
 
 pub fn run(run: &Run) {
     run.rule(
         "optable: every (Int|Bytes|Ip) x operator x (boundary lhs incl. absent) x boundary rhs x nil_ne x optional cell, each distinct cell counts; \
-         random: grammar-directed well-typed scalar filters (depth<=5, chains of 3-6 operands) x 8 contexts; non-trivial = filter has >=2 distinct logical operators or a not AND on that context some comparison is true and some false; distinct by (filter text, context)",
+         random: grammar-directed well-typed scalar filters (depth<=5, chains of 3-6 operands) x 8 contexts; non-trivial = filter has >=2 distinct logical operators or a not AND on that context some comparison is true and some false; distinct by (filter text, context); \
+         ruleset: rule-set idioms over 1-3 fields (one field tested 2-7 times in a chain, mostly with one operator, against 2-5 literals; negated members, negated groups, two groups joined by another operator) x 6 contexts (field absent / equal to a literal / boundary value), both nil-not-equal settings; non-trivial = >=3 tests of one field with one operator AND (truths mixed or a field absent)",
     );
     run.assume("mandatory fields are always set (an unset mandatory field panics by contract)");
     run.assume("the reference evaluator in harness/src/eval.rs states the documented semantics");
@@ -185,4 +323,6 @@ pub fn run(run: &Run) {
     run.enumerate("optable", optable_total(), &optable_key, &*find_sub(&subs, "optable").unwrap().f);
     let n = run.tier.pick(300_000, 20_000_000);
     run.random("random", n, 300, &*find_sub(&subs, "random").unwrap().f);
+    let n = run.tier.pick(150_000, 8_000_000);
+    run.random("ruleset", n, 200, &*find_sub(&subs, "ruleset").unwrap().f);
 }
